@@ -93,7 +93,11 @@ def run_cell(cell):
     # the uninterrupted runs themselves must be prefixes of each other (batch for batch)
     allr = set()
     symbols = cell.get("symbols", "npr")
-    for pattern in itertools.product(symbols, repeat=n - 1):
+    patterns = itertools.product(symbols, repeat=n - 1)
+    if cell.get("single_cut"):
+        # one boundary of each kind at every position (the other boundaries inside the same call) + everything cut
+        patterns = [tuple(k if j == i else "n" for j in range(n - 1)) for i in range(n - 1) for k in symbols] + [tuple(symbols[0] for _ in range(n - 1)), tuple(symbols[-1] for _ in range(n - 1))]
+    for pattern in patterns:
         vs, reached = run_path(cfg, list(pattern), ref)
         res["evaluations"] += 1
         res["traces"] += 1
@@ -144,6 +148,10 @@ def main(ctx):
     for lu in ([["Halton", "RandomUniform", "RSequence"], ["RSequence", "ParticleSwarm", "BestBatch"]]):
         cells.append({"cfg": {"lineup": [{"cls": c, "bs": b} for c, b in zip(lu, (2, 3, 1))], "seed": S, "dims": 2, "model": "gauss2", "ensemble": 1}, "n": 5 if ctx.quick else 6,
                       "symbols": "pr" if ctx.quick else "npr"})
+    # larger-scope probes: a five-sampler line-up, and a 12-batch run cut once at every position (plain and restore)
+    five = [{"cls": c, "bs": b} for c, b in zip(("Halton", "RandomUniform", "ParticleSwarm", "BestBatch", "RSequence"), (3, 2, 2, 4, 1))]
+    cells.append({"cfg": {"lineup": five, "seed": S, "dims": 3, "model": "gauss2", "ensemble": 1}, "n": 7, "symbols": "pr", "single_cut": True})
+    cells.append({"cfg": {"lineup": [{"cls": "Halton", "bs": 5}, {"cls": "XGBoost", "bs": 3}, {"cls": "CORS", "bs": 2}], "seed": S, "dims": 2, "model": "gauss2", "ensemble": 4}, "n": 12, "symbols": "pr", "single_cut": True})
     # RL scheduler: plain cuts only without a folder (several sessions); with a folder the scheduler cannot be pickled (known finding)
     for eps in (0.0, 0.5):
         cells.append({"cfg": {"lineup": [{"cls": "Halton", "bs": 2}, {"cls": "RandomUniform", "bs": 2}, {"cls": "BestBatch", "bs": 2}], "seed": S, "dims": 2, "model": "gauss2", "ensemble": 1,
